@@ -16,7 +16,7 @@ import (
 
 func init() { register(&Check{ID: "C08", Run: runC08}) }
 
-const c08Bodies = 8
+const c08Bodies = 9
 
 func c08Body(b int, e string) string {
 	switch b {
@@ -34,6 +34,8 @@ func c08Body(b int, e string) string {
 		return "applymovement(1, moves(m_" + e + " u))\n"
 	case 6:
 		return "poryswitch(PV) {\nSEL: c_" + e + "\n_: d_" + e + "\n}\n"
+	case 8: // arguments with operator characters the assembler understands (incl. the printf verb character)
+		return "setvar(V_" + e + ", V_" + e + " % 4)\nc_" + e + "(100%, %d, %s%%)\n"
 	default:
 		return "switch (var(V_" + e + ")) {\ncase 1:\nc_" + e + "\ndefault:\nd_" + e + "\n}\n"
 	}
@@ -99,7 +101,7 @@ func standaloneBlock(name, body string, opt bool, sw map[string]string) (string,
 func c08Enumerate(r *harness.Run, maxTab, maxEntries int, visit func(entries []c08Entry, scope string, opt bool)) (int, int) {
 	var tabOpts []c08TabEntry
 	tabOpts = append(tabOpts, c08TabEntry{false, 0, 0}, c08TabEntry{false, 0, 1})
-	for _, b := range []int{0, 1, 2, 4} {
+	for _, b := range []int{0, 1, 2, 4, 8} {
 		tabOpts = append(tabOpts, c08TabEntry{true, b, b % 2})
 	}
 	var opts []c08Entry
@@ -170,7 +172,7 @@ func runC08(tier string) int {
 	r.Assume("an inline body must be emitted exactly like 'script(local) <name> { body }' (differential; C01 decides the behaviour of script statements)",
 		"inline names are <map>_<TYPE> and <map>_<TYPE>_<index>; texts inside bodies are distinct per entry so that no label is shared across entries")
 	return r.Finish(r.Get("evaluations"), r.Get("nontrivial"),
-		"every mapscripts statement with <= N entries over {plain, inline with 8 body kinds, table with <= T entries over plain / inline entries with simple and multi-token var/value (the multi-token ones mention constants)} x scope {none, global, local} x optimize on/off, incl. the empty statement and empty tables; header, table and inline-script blocks are compared with the generator's expectation and with the standalone compilation of the same body; non-trivial = the statement has a table and an inline entry")
+		"every mapscripts statement with <= N entries over {plain, inline with 9 body kinds incl. arguments that contain '%', table with <= T entries over plain / inline entries with simple and multi-token var/value (the multi-token ones mention constants)} x scope {none, global, local} x optimize on/off, incl. the empty statement and empty tables; header, table and inline-script blocks are compared with the generator's expectation and with the standalone compilation of the same body; non-trivial = the statement has a table and an inline entry")
 }
 
 func c08Eval(r *harness.Run, entries []c08Entry, scope string, opt bool, sw map[string]string) {
@@ -209,7 +211,7 @@ func c08Eval(r *harness.Run, entries []c08Entry, scope string, opt bool, sw map[
 				if te.form == 1 {
 					// multi-token var and value that mention constants (const KC = 1, const KD = 2)
 					v, ev = "VAR_"+T+" + ( KC )", "VAR_"+T+" + ( 1 )"
-					n, en = fmt.Sprintf("%d * KD", j), fmt.Sprintf("%d * 2", j)
+					n, en = fmt.Sprintf("%d * KD %% 5", j), fmt.Sprintf("%d * 2 %% 5", j)
 				}
 				if te.inline {
 					name := fmt.Sprintf("M_%s_%d", T, j)
